@@ -140,13 +140,20 @@ PrimFailing(r) ==
 FacetOK(r) ==
   /\ r.fc >= 0
   /\ \A i \in DOMAIN r.VA : \A j \in DOMAIN r.VB : Dot(r.fn, Sub(r.VA[i], r.VB[j])) <= r.fc
-PenClausesEpa == <<"NoException", "ORACLE_FacetInvalid", "SuccessOnPolytopes", "Minimal", "TouchAfterMTV">>
+(* Inflated tier (r.infl): both colliders are lattice polytopes (points, segments included) inflated by balls of radii
+   rA, rB (spheres, capsules, Margin wrappers) whose CORES are disjoint: the Minkowski difference is the core difference
+   inflated by rA + rB, so the penetration depth is exactly rA + rB - dist(cores).  The core distance comes with the same
+   certificate as in the distance records (CertOK), and TLC checks that the cores are disjoint and the inflated bodies
+   overlap; the harness measures r.depthErr against rA + rB - sqrt(xn.xn)/W. *)
+InflOK(r) == CertOK(r) /\ Dot(r.xn, r.xn) > 0 /\ Overlap(r)
+PenClausesEpa == <<"NoException", "ORACLE_FacetInvalid", "ORACLE_CertInvalid", "SuccessOnPolytopes", "Minimal", "TouchAfterMTV">>
 PenClausesMpr == <<"NoException", "ORACLE_FacetInvalid", "DeepOverlapHit", "DepthNonNegative", "UnitOrZeroDirection",
                    "ResidualOverlap", "DepthLowerBound", "ContactInBoth", "ResultsStable">>
 PenHolds(c, r) ==
   LET ok == r.exc = "none" IN
   CASE c = "NoException"         -> ok \/ (r.exc = "AssertionError" /\ r.algo = "epa" /\ r.smooth)
     [] c = "ORACLE_FacetInvalid" -> r.exact => FacetOK(r)
+    [] c = "ORACLE_CertInvalid"  -> r.infl => InflOK(r)
     [] c = "SuccessOnPolytopes"  -> (ok /\ r.exact) => r.success
     [] c = "Minimal"             -> (ok /\ r.success /\ r.judged) => r.depthErr <= Slack
     [] c = "TouchAfterMTV"       -> (ok /\ r.success /\ r.judged) => (r.residual <= Slack /\ r.gap <= Slack)
